@@ -2,6 +2,7 @@ import EinxModel.Driver.Util
 import EinxModel.Driver.IR
 import EinxModel.Generic.Grammar
 import EinxModel.Generic.Stb
+import EinxModel.Generic.StbDenote
 /-!
 Driver for C17.
 
@@ -218,20 +219,25 @@ def progEq (a b : List Einx.IR.Instr) : Bool := (progJson a).compress == (progJs
 def handleStb (j : Json) : R Json := do
   let eis ← arrF j "exprs_in"
   let eos ← arrF j "exprs_out"
-  let model : Except String (List Einx.IR.Instr × Nat) ← (do
+  -- besides the program: whether the pair satisfies the hypotheses of `lower_id_correct` (Props/C01Lower.lean)
+  -- and the computed instance of its conclusion (the validator accepts the program against `denoteId`)
+  let (model, thm) : Except String (List Einx.IR.Instr × Nat) × Option (Bool × Bool) ← (do
     match eis, eos with
     | [ei], [eo] =>
       match toG ei, toG eo with
       | .error (.bad e), _ | _, .error (.bad e) => throw s!"stb_model: {e}"
-      | .error (.unsupported w), _ | _, .error (.unsupported w) => pure (.error s!"unsupported: {w}")
+      | .error (.unsupported w), _ | _, .error (.unsupported w) => pure (.error s!"unsupported: {w}", none)
       | .ok gi, .ok go =>
         match lowerId gi go with
-        | .ok s => pure (.ok (s.prog, s.reg))
-        | .error e => pure (.error e)
-    | _, _ => pure (.error "unsupported: more than one input or output" : Except String (List Einx.IR.Instr × Nat)))
-  let mj := match model with
+        | .ok s => pure (.ok (s.prog, s.reg), some (Einx.Lower.inTheoremDomain gi go, Einx.Lower.theoremInstance gi go))
+        | .error e => pure (.error e, none)
+    | _, _ => pure ((.error "unsupported: more than one input or output" : Except String (List Einx.IR.Instr × Nat)), none))
+  let tj := match thm with
+    | some (d, i) => [("theorem_domain", Json.bool d), ("theorem_instance", Json.bool i)]
+    | none => []
+  let mj := (match model with
     | .ok (p, r) => [("model", Json.mkObj [("ok", progJson p), ("out", jNat r), ("skeleton", progJson (progSkeleton p))])]
-    | .error e => [("model", Json.mkObj [("err", Json.str e)])]
+    | .error e => [("model", Json.mkObj [("err", Json.str e)])]) ++ tj
   match fldOpt j "graph" with
   | none => pure (Json.mkObj mj)
   | some g =>
